@@ -19,7 +19,58 @@ pub(crate) struct Index<K> {
     pub paths: DbPaths,
     pub state: Arc<RwLock<IndexState<K>>>,
     pub wal: Mutex<WalManager>,
-    pub pending_intents: Mutex<HashMap<K, BlobHash>>,
+    pub pending_intents: Mutex<PendingIntents<K>>,
+}
+
+/// Intents of in-flight commits, kept under one mutex.
+///
+/// `by_key` is the per-key view (the latest intent registered for a key). `by_hash` counts every
+/// in-flight intent per blob hash: a blob stays protected from deletion until each transaction
+/// that moved it into the CAS has been applied or reverted, even if a later transaction on the
+/// same key has replaced the per-key slot in the meantime.
+pub(crate) struct PendingIntents<K> {
+    by_key: HashMap<K, BlobHash>,
+    by_hash: HashMap<BlobHash, usize>,
+}
+
+impl<K> Default for PendingIntents<K> {
+    fn default() -> Self {
+        Self { by_key: HashMap::default(), by_hash: HashMap::default() }
+    }
+}
+
+impl<K: Eq + std::hash::Hash> PendingIntents<K> {
+    /// Registers an intent; returns the hash previously registered for `key`, if any.
+    fn register(&mut self, key: K, hash: BlobHash) -> Option<BlobHash> {
+        *self.by_hash.entry(hash).or_insert(0) += 1;
+        self.by_key.insert(key, hash)
+    }
+
+    /// Ends the protection one intent gave to `hash`.
+    fn release(&mut self, hash: &BlobHash) {
+        if let Some(count) = self.by_hash.get_mut(hash) {
+            *count -= 1;
+            if *count == 0 {
+                self.by_hash.remove(hash);
+            }
+        }
+    }
+
+}
+
+impl<K> PendingIntents<K> {
+    /// True while some in-flight commit still needs the blob `hash`.
+    pub(crate) fn protects(&self, hash: &BlobHash) -> bool {
+        self.by_hash.contains_key(hash)
+    }
+}
+
+impl<K> std::ops::Deref for PendingIntents<K> {
+    type Target = HashMap<K, BlobHash>;
+
+    fn deref(&self) -> &Self::Target {
+        &self.by_key
+    }
 }
 
 /// A read-only view of the index state.
@@ -212,15 +263,16 @@ where
             #[cfg(feature = "verif")]
             crate::verif::point("guard_drop.lock_I");
             let mut intents = self.index.pending_intents.lock();
+            intents.release(&self.hash);
 
             if let Some(current_hash) = intents.get(&self.key)
                 && *current_hash == self.hash
             {
-                intents.remove(&self.key);
+                intents.by_key.remove(&self.key);
 
                 // If we had replaced an existing intent, restore it
                 if let Some(replaced_hash) = self.replaced_hash {
-                    intents.insert(self.key.clone(), replaced_hash);
+                    intents.by_key.insert(self.key.clone(), replaced_hash);
                 }
             }
         }
@@ -257,7 +309,7 @@ where
             paths,
             state,
             wal: Mutex::new(wal_manager),
-            pending_intents: Mutex::new(HashMap::default()),
+            pending_intents: Mutex::new(PendingIntents::default()),
         };
 
         // Only checkpoint after replay if we actually replayed something
@@ -290,11 +342,8 @@ where
         crate::verif::point("intent.lock_I");
         let mut intents = self.pending_intents.lock();
 
-        // Check if there was a previous intent for this key
-        let replaced_hash = intents.get(&key).copied();
-
-        // Insert the new intent
-        intents.insert(key.clone(), meta.blob_hash);
+        // Insert the new intent, remembering a previous intent for this key
+        let replaced_hash = intents.register(key.clone(), meta.blob_hash);
 
         Ok(IntentGuard {
             index: self,
@@ -332,11 +381,15 @@ where
 
         #[cfg(feature = "verif")]
         crate::verif::point("put.applied");
-        intents.remove(&key);
+        // Our intent is applied: free the per-key slot if it is still ours (a later transaction
+        // on the same key may have replaced it) and end our protection of the blob.
+        if intents.get(&key) == Some(&hash) {
+            intents.by_key.remove(&key);
+        }
+        intents.release(&hash);
 
-        // Filter out any unreferenced hashes that are still referenced by other intents
-        unreferenced_from_op
-            .retain(|hash| !intents.values().any(|intent_hash| intent_hash == hash));
+        // Filter out any unreferenced hashes that are still needed by other in-flight commits
+        unreferenced_from_op.retain(|hash| !intents.protects(hash));
 
         // Delete blobs BEFORE any checkpoint
         if !unreferenced_from_op.is_empty() {
@@ -384,9 +437,8 @@ where
 
         #[cfg(feature = "verif")]
         crate::verif::point("rm.applied");
-        // Remove any unreferenced hashes that are still referenced by intents
-        unreferenced_from_op
-            .retain(|hash| !intents.values().any(|intent_hash| intent_hash == hash));
+        // Remove any unreferenced hashes that are still needed by in-flight commits
+        unreferenced_from_op.retain(|hash| !intents.protects(hash));
 
         // Delete blobs BEFORE any checkpoint
         if !unreferenced_from_op.is_empty() {
